@@ -317,15 +317,28 @@ pub fn run(tier: &str) -> Result<Report, String> {
         "!{x}: (@{x}: !{y}: {y}) & (!{y}: @{y}: !{x1}: {x1} & {x} & {y})",
         "3{a}: @{a}: a",
         "!{x} in %d%: 3{xx} in %d%: V{x_} in %e%: @{x_}: {x} & {xx}",
+        // variable names are "arbitrary": letters and digits of any script, underscores, names spelled like keywords
+        "!{č}: {č}",
+        "!{č}: AX {č}",
+        "3{α}: 3{β}: (@{α}: EF {β}) & (@{β}: AX {α})",
+        "!{状態}: (3{x²}: @{状態}: {x²}) & (V{ξ_1}: @{ξ_1}: AX {状態})",
+        "!{é}: (!{x}: {x} & {é}) & (!{é2}: {é2} & {é})",
+        "V{Ω} in %d%: 3{ω} in %e%: @{Ω}: ({ω} | a)",
+        "!{in}: 3{EX}: @{in}: ({EX} & AX {in})",
+        "!{_}: 3{__}: @{_}: {__}",
+        "!{0}: 3{1}: (@{0}: {1}) | b",
     ];
     let ctx = context();
     foreign_symbolic_names(&mut rep, &ctx);
     for s in special {
-        if let Ok(t) = crate::refparser::parse_str(s, true) {
-            rep.evaluations += 1;
-            if let Some(what) = check(&t, &ctx) {
-                rep.violations.push(Violation { case: json!({"kind": "prep", "tree": t}), what: format!("input {s}: {what}"), size: t.size() });
+        match crate::refparser::parse_str(s, true) {
+            Ok(t) => {
+                rep.evaluations += 1;
+                if let Some(what) = check(&t, &ctx) {
+                    rep.violations.push(Violation { case: json!({"kind": "prep", "tree": t}), what: format!("input {s}: {what}"), size: t.size() });
+                }
             }
+            Err(e) => return Err(format!("hand-picked input {s:?} is not derivable by the reference grammar: {e}")),
         }
     }
     // deterministic deep nests (8..12, 20, 40 quantifiers on one branch, every variable used innermost,
